@@ -225,26 +225,31 @@ CLAIMED = {
                   'clone templates + LR(1) injectivity of the printers'),
     'C12': dict(
         partial=True,
-        text='Necessary conditions only. The post-order step of '
-             'compute_SCCs is interpreted abstractly on symbolic '
-             'bookkeeping state (roles lowlink / disc / closed set / '
-             'component stack discovered from the code): every lowlink '
-             'update is monotone (min with the current value), uses the '
-             'successor being scanned and is dominated by the closed-set '
-             'test; a component is emitted exactly under lowlink[v] == '
-             'disc[v]; on emission the root and every popped node are '
-             'yielded and closed and the pop loop compares discovery '
-             'times; a non-root is pushed; the argument is not modified. '
-             'Breaking any of them gives a wrong partition on some graph '
-             'and insertion order. NOT decided: that these conditions '
-             'suffice (partition and mutual reachability for every '
-             'digraph).',
+        text='Necessary conditions only. The two blocks of the iterative '
+             'lowlink algorithm in compute_SCCs -- the DFS step (take the '
+             'next successor, open it if new) and the post-order step -- '
+             'are interpreted abstractly on symbolic bookkeeping state '
+             '(roles lowlink / disc / closed set / component stack '
+             'discovered from the code, local helper closures seen '
+             'through): a newly opened node gets a strictly increasing '
+             'discovery number under the not-yet-discovered test and its '
+             'lowlink starts equal to it; every lowlink update is monotone '
+             '(min with the current value), uses the successor being '
+             'scanned and is dominated by the closed-set test; a component '
+             'is emitted exactly under lowlink[v] == disc[v]; on emission '
+             'the root and every popped node are yielded and closed and the '
+             'pop loop compares discovery times; a non-root is pushed; the '
+             'argument is not modified. Breaking any of them gives a wrong '
+             'partition on some graph and insertion order. NOT decided: '
+             'that these conditions suffice (partition and mutual '
+             'reachability for every digraph).',
         ref='3-C12',
-        note='trusted: nothing about the numbering / DFS driver is '
-             'decided; another SCC algorithm yields INCONCLUSIVE, not a '
-             'verdict',
-        technique='per-step abstract interpretation of the post-order block '
-                  '+ monotonicity / guard-dominance / pairing rules'),
+        note='trusted: the DFS driver visits every successor of every node '
+             '(iterator protocol) -- not decided; another SCC algorithm '
+             'yields INCONCLUSIVE, not a verdict',
+        technique='per-step abstract interpretation of the DFS and '
+                  'post-order blocks + monotonicity / guard-dominance / '
+                  'pairing rules'),
     'C13': dict(
         partial=True,
         text='DiGraph is analysed at the level of its adjacency dictionary: '
@@ -342,7 +347,12 @@ CLAIMED = {
              'keyed consistently; OBDD.apply is guarded by equality of '
              'orderings (RuntimeError) and passes the roots in order; a '
              'variable outside the ordering raises RuntimeError; &,|,^ pass '
-             'the matching operator. Reducedness follows from C16.',
+             'the matching operator; every memo table handed to the apply / '
+             'restrict / negation recursions is allocated for that one '
+             'top-level operation (their keys contain neither the operator, '
+             'the ordering nor the lifetime of the nodes); ListOrdering '
+             'equality / order / membership folded on small lists. '
+             'Reducedness follows from C16.',
         ref='3-C17',
         note='trusted: induction over operand size; step checked on all '
              'operand pairs over 2 variables (quick) / a sample over 3 '
@@ -458,8 +468,15 @@ def main():
         'checks': checks,
         'not_applicable': na,
         'notes': 'Exit 0 ok (KNOWN-FINDING lines only) / 1 VIOLATION / 2 '
-                 'ANALYSIS-ERROR or INCONCLUSIVE. No check imports or runs '
-                 'repository code.',
+                 'ANALYSIS-ERROR or INCONCLUSIVE. The rules of a property '
+                 'run independently: a finding of any rule is reported even '
+                 'when another rule is undecided; with no finding an '
+                 'undecided rule gives exit 2. The thorough tier uses the '
+                 'larger bounds and re-analyses seeded variants of the tree '
+                 'under check (scratch copies with one patch of '
+                 '/verif/seeded applied) that the check must report '
+                 '(liveness of zero-expected rules). No check imports or '
+                 'runs repository code.',
     }
     with open(os.path.join(HERE, 'MANIFEST.json'), 'w') as fh:
         json.dump(man, fh, indent=1)
